@@ -104,6 +104,11 @@ type c10Case struct {
 	// setters); it must not influence the request under test, so it is not part of the model line
 	sibKind int
 	sibOps  []string
+	// URL building (round 4): `url` is the RawURL handed to Send — it may hold {placeholders} and a
+	// query string, and (urlKind "s") lack the scheme or (urlKind "r") be relative to baseURL
+	urlKind                 string
+	pathParams, cPathParams [][2]string
+	baseURL, scheme         string
 	// further Do calls on the SAME Request object: per re-send the setter calls (n=, i=) made
 	// before it; RetryAttempt and the request state are whatever the previous call left
 	resend [][]string
@@ -165,6 +170,7 @@ func c10Toks(l []string) string {
 }
 
 func c10JSON(v string) string { return `{"k":"` + v + `"}` }
+func c10XML(v string) string  { return `<k>` + v + `</k>` }
 
 // line renders the case for the driver; obs are the observed interval durations.
 func (tc *c10Case) line(lane, mask string, obs []int64) string {
@@ -181,7 +187,7 @@ func (tc *c10Case) line(lane, mask string, obs []int64) string {
 	case 'b', 'u', 'r':
 		body = tc.body[:1] + verifh.Hex(tc.body[1:])
 	case 'm':
-		body = "m" + verifh.Hex(c10JSON(tc.body[1:]))
+		body = "m" + verifh.Hex(c10JSON(tc.body[1:])) + ":" + verifh.Hex(c10XML(tc.body[1:]))
 	}
 	ob := "-"
 	if len(obs) > 0 {
@@ -201,11 +207,75 @@ func (tc *c10Case) line(lane, mask string, obs []int64) string {
 	if tc.ivx > 0 {
 		ivx = strconv.Itoa(tc.ivx)
 	}
+	urlT, rawQ := tc.urlTemplate()
+	script := make([]string, len(tc.script))
+	sets := make([]string, len(tc.script))
+	for i, o := range tc.script {
+		var set string
+		script[i], set, _ = strings.Cut(o, "^")
+		sets[i] = "-"
+		if set != "" {
+			var ps []string
+			for _, p := range strings.Split(set, "+") {
+				n, v, _ := strings.Cut(p, ":")
+				ps = append(ps, verifh.Hex(n)+":"+verifh.Hex(v))
+			}
+			sets[i] = strings.Join(ps, "+")
+		}
+	}
 	return strings.Join([]string{lane, mask, c10Toks(tc.clientOps), c10Toks(tc.reqOps), c10Toks(tc.conds), c10Toks(tc.hooks),
-		c10Toks(tc.after), c10Toks(tc.script), ob,
+		c10Toks(tc.after), c10Toks(script), ob,
 		c10Pairs(tc.cCookies), c10Multi(tc.cHeaders), c10Multi(tc.cForm), c10Multi(tc.cQuery), b2(tc.allowGet),
-		verifh.Hex(tc.method), verifh.Hex(tc.url), c10Pairs(tc.cookies), c10Multi(tc.headers), c10Multi(tc.form),
-		c10Pairs(tc.ordered), c10Multi(tc.query), b2(tc.multipart), files, body, tc.resendTok(), ivx}, " ")
+		verifh.Hex(tc.method), urlT, c10Pairs(tc.cookies), c10Multi(tc.headers), c10Multi(tc.form),
+		c10Pairs(tc.ordered), c10Multi(tc.query), b2(tc.multipart), files, body, tc.resendTok(), ivx,
+		c10Pairs(rawQ), c10Pairs(tc.pathParams), c10Pairs(tc.cPathParams), verifh.Hex(tc.baseURL), verifh.Hex(tc.scheme), c10Toks(sets)}, " ")
+}
+
+// urlTemplate splits the RawURL of the case into what the model is given: how it starts, the path
+// as literal pieces and {placeholders}, and the query string written in it.
+func (tc *c10Case) urlTemplate() (string, [][2]string) {
+	u := tc.url
+	var rawQ [][2]string
+	if i := strings.Index(u, "?"); i >= 0 {
+		for _, p := range strings.Split(u[i+1:], "&") {
+			k, v, _ := strings.Cut(p, "=")
+			k, _ = url.QueryUnescape(k)
+			v, _ = url.QueryUnescape(v)
+			rawQ = append(rawQ, [2]string{k, v})
+		}
+		u = u[:i]
+	}
+	head := "r"
+	switch tc.urlKind {
+	case "":
+		i := strings.Index(u, "://") + 3
+		j := strings.Index(u[i:], "/")
+		if j < 0 {
+			j = len(u) - i
+		}
+		head, u = "a"+verifh.Hex(u[:i+j]), u[i+j:]
+	case "s":
+		j := strings.Index(u, "/")
+		if j < 0 {
+			j = len(u)
+		}
+		head, u = "s"+verifh.Hex(u[:j]), u[j:]
+	}
+	var segs []string
+	for u != "" {
+		i := strings.Index(u, "{")
+		j := strings.Index(u, "}")
+		if i < 0 || j < i {
+			segs = append(segs, "l"+verifh.Hex(u))
+			break
+		}
+		if i > 0 {
+			segs = append(segs, "l"+verifh.Hex(u[:i]))
+		}
+		segs = append(segs, "p"+verifh.Hex(u[i+1:j]))
+		u = u[j+1:]
+	}
+	return head + "|" + c10Toks(segs), rawQ
 }
 
 func (tc *c10Case) resendTok() string {
@@ -331,7 +401,8 @@ type c10Run struct {
 
 func (x *c10Run) outcome(i int) string {
 	if i < len(x.tc.script) {
-		return x.tc.script[i]
+		o, _, _ := strings.Cut(x.tc.script[i], "^")
+		return o
 	}
 	return "c" // every generated script ends with c; this is only reached by a runaway loop
 }
@@ -375,9 +446,30 @@ func (x *c10Run) RoundTrip(r *http.Request) (*http.Response, error) {
 	if o[0] == 'b' {
 		content = "bad:" + strconv.Itoa(ra)
 	}
+	hdr := http.Header{"X-Attempt": {strconv.Itoa(ra)}, "Content-Type": {"application/json"}}
+	if k < len(x.tc.script) {
+		c10SetCookies(hdr, x.tc.script[k])
+	}
 	return &http.Response{StatusCode: code, Status: strconv.Itoa(code) + " X", Proto: "HTTP/1.1", ProtoMajor: 1, ProtoMinor: 1,
-		Header:        http.Header{"X-Attempt": {strconv.Itoa(ra)}, "Content-Type": {"application/json"}},
+		Header:        hdr,
 		ContentLength: int64(len(content)), Body: io.NopCloser(strings.NewReader(content)), Request: r}, nil
+}
+
+// c10SetCookies adds the Set-Cookie headers a script token asks for (`…^name:value+name:`; an
+// empty value expires the cookie).
+func c10SetCookies(h http.Header, tok string) {
+	_, set, _ := strings.Cut(tok, "^")
+	if set == "" {
+		return
+	}
+	for _, p := range strings.Split(set, "+") {
+		n, v, _ := strings.Cut(p, ":")
+		if v == "" {
+			h.Add("Set-Cookie", n+"=gone; Max-Age=0; Path=/")
+		} else {
+			h.Add("Set-Cookie", n+"="+v+"; Path=/")
+		}
+	}
 }
 
 func c10ErrTok(err error) string {
@@ -528,8 +620,16 @@ func (x *c10Run) hookStub(id int) RetryHookFunc {
 	}
 }
 
+// c10StubInterval: the stubs numbered 100 and up are "Retry-After style" — they read the response
+// they are handed (which must be the response of the attempt just made).
 func c10StubInterval(id int) GetRetryIntervalFunc {
-	return func(resp *Response, attempt int) time.Duration { return time.Duration(id*1000 + attempt) }
+	return func(resp *Response, attempt int) time.Duration {
+		d := id*1000 + attempt
+		if id >= 100 && resp != nil && resp.Response != nil {
+			d += 7 * resp.StatusCode
+		}
+		return time.Duration(d)
+	}
 }
 
 func (x *c10Run) applyOps(ops []string, c *Client, r *Request) {
@@ -665,6 +765,16 @@ func (x *c10Run) build(dir string) (*Client, *Request) {
 			c.AddCommonQueryParam(e.k, v)
 		}
 	}
+	for _, p := range tc.cPathParams {
+		c.SetCommonPathParam(p[0], p[1])
+	}
+	if tc.baseURL != "" {
+		c.SetBaseURL(tc.baseURL)
+	}
+	if tc.scheme != "" {
+		c.SetScheme(tc.scheme)
+	}
+	c.SetXmlMarshal(func(v interface{}) ([]byte, error) { return []byte(c10XML(v.(map[string]string)["k"])), nil })
 	x.applyOps(tc.clientOps, c, nil)
 
 	if len(tc.reqOps) > 0 {
@@ -683,7 +793,14 @@ func (x *c10Run) build(dir string) (*Client, *Request) {
 		r.SetCookies(&http.Cookie{Name: p[0], Value: p[1]})
 	}
 	for _, e := range tc.headers {
+		if e.k == HeaderOderKey {
+			r.SetHeaderOrder(e.vs...)
+			continue
+		}
 		r.SetHeader(e.k, e.vs[0])
+	}
+	for _, p := range tc.pathParams {
+		r.SetPathParam(p[0], p[1])
 	}
 	if len(tc.form) > 0 {
 		vals := url.Values{}
@@ -876,6 +993,103 @@ func (x *c10Run) answer() string {
 	return strings.Join(append(append([]string{}, x.log...), x.final), " ")
 }
 
+// c10JarNames: the cookie names the script's responses set (they live in the jar, not in the request).
+func (tc *c10Case) jarNames() map[string]bool {
+	names := map[string]bool{}
+	for _, o := range tc.script {
+		if _, set, ok := strings.Cut(o, "^"); ok {
+			for _, p := range strings.Split(set, "+") {
+				n, _, _ := strings.Cut(p, ":")
+				names[n] = true
+			}
+		}
+	}
+	return names
+}
+
+// c10SplitJar takes the cookies of a canonical wire request apart: the request as req built it
+// (jar cookies removed) and the cookies that came out of the jar, in wire order.
+func c10SplitJar(wire string, names map[string]bool) (string, string) {
+	i := strings.Index(wire, "&c=")
+	j := strings.Index(wire, "&b=")
+	if len(names) == 0 || i < 0 || j < i || wire[i+3:j] == "-" {
+		return wire, ""
+	}
+	var own, jar []string
+	for _, p := range strings.Split(wire[i+3:j], ";") {
+		n, _, _ := strings.Cut(p, ":")
+		if names[verifh.UnHex(n)] {
+			jar = append(jar, p)
+		} else {
+			own = append(own, p)
+		}
+	}
+	c := "-"
+	if len(own) > 0 {
+		c = strings.Join(own, ";")
+	}
+	return wire[:i+3] + c + wire[j:], strings.Join(jar, ";")
+}
+
+// jarOracle: what the jar must hold before each script position — the Set-Cookies of the responses
+// so far, a new name appended, a known name replaced in place, an expired one removed (written
+// without the model; one origin, path /).
+func (tc *c10Case) jarOracle() []string {
+	type ck struct{ n, v string }
+	var jar []ck
+	out := make([]string, len(tc.script)+1)
+	render := func() string {
+		ps := make([]string, len(jar))
+		for i, c := range jar {
+			ps[i] = verifh.Hex(c.n) + ":" + verifh.Hex(c.v)
+		}
+		return strings.Join(ps, ";")
+	}
+	for i, o := range tc.script {
+		out[i] = render()
+		if _, set, ok := strings.Cut(o, "^"); ok {
+			for _, p := range strings.Split(set, "+") {
+				n, v, _ := strings.Cut(p, ":")
+				idx := -1
+				for k, c := range jar {
+					if c.n == n {
+						idx = k
+					}
+				}
+				switch {
+				case v == "" && idx >= 0:
+					jar = append(jar[:idx], jar[idx+1:]...)
+				case v == "":
+				case idx >= 0:
+					jar[idx].v = v
+				default:
+					jar = append(jar, ck{n, v})
+				}
+			}
+		}
+	}
+	out[len(tc.script)] = render()
+	return out
+}
+
+// checkJar: every attempt's request minus the jar's cookies is compared by the caller; here the
+// jar part of wire number i (= script position i: one wire per pass unless a middleware failed,
+// which the jar cases do not script) must be exactly what the origin has stored so far.
+func (x *c10Run) checkJar() (bool, string) {
+	names := x.tc.jarNames()
+	if len(names) == 0 {
+		return true, ""
+	}
+	want := x.tc.jarOracle()
+	for i, w := range x.wires {
+		_, jar := c10SplitJar(w, names)
+		if i < len(want) && jar != want[i] {
+			return false, fmt.Sprintf("attempt %d carries the jar cookies [%s], the origin has stored [%s]", i, jar, want[i])
+		}
+	}
+	return true, ""
+}
+
 // oracle checks the property clauses directly on the run, without the model.
 func (x *c10Run) oracle() (ok bool, why string) {
 	tc := x.tc
@@ -903,13 +1117,19 @@ func (x *c10Run) oracle() (ok bool, why string) {
 	if !x.enabled && len(x.wires) > 1 {
 		return fail("retried without a retry option")
 	}
-	// every attempt identical unless a hook edited the request
+	// every attempt identical unless a hook edited the request — apart from the cookies the origin
+	// itself has stored in the jar meanwhile, which must be exactly those
 	if !x.mutated {
+		names := tc.jarNames()
+		w0, _ := c10SplitJar(x.wires0(), names)
 		for i := 1; i < len(x.wires); i++ {
-			if x.wires[i] != x.wires[0] {
+			if wi, _ := c10SplitJar(x.wires[i], names); wi != w0 {
 				return fail(fmt.Sprintf("attempt %d differs from attempt 0", i))
 			}
 		}
+	}
+	if ok, why := x.checkJar(); !ok {
+		return fail(why)
 	}
 	// interval function once per retry with attempt numbers 1,2,…
 	retries := x.iter - 1
@@ -1114,14 +1334,27 @@ func (x *c10Run) oracleDyn() (bool, string) {
 			}
 		}
 		if !x.mutated {
+			names := tc.jarNames()
 			for i := x.sendWires[si] + 1; i < wEnd; i++ {
-				if x.wires[i] != x.wires[x.sendWires[si]] {
+				a, _ := c10SplitJar(x.wires[i], names)
+				b, _ := c10SplitJar(x.wires[x.sendWires[si]], names)
+				if a != b {
 					return fail(fmt.Sprintf("send %d: attempt %d differs from the first attempt of the call", si, i-x.sendWires[si]))
 				}
 			}
 		}
 	}
+	if ok, why := x.checkJar(); !ok {
+		return fail(why)
+	}
 	return true, ""
+}
+
+func (x *c10Run) wires0() string {
+	if len(x.wires) == 0 {
+		return ""
+	}
+	return x.wires[0]
 }
 
 // ---------------------------------------------------------------------------- classification
@@ -1769,11 +2002,80 @@ func c10Text(s string) string {
 	return s
 }
 
+func c10HasKV(l []c10KV, k string) bool {
+	for _, e := range l {
+		if e.k == k {
+			return true
+		}
+	}
+	return false
+}
+
+// c10SetKV: a later Set call for the same key replaces the earlier one.
+func c10SetKV(l []c10KV, k, v string) []c10KV {
+	for i, e := range l {
+		if e.k == k {
+			l[i].vs = []string{v}
+			return l
+		}
+	}
+	return append(l, c10KV{k, []string{v}})
+}
+
 // c10RandShape draws client- and request-level cookies / headers / query / form data and a body.
-func c10RandShape(r interface{ Intn(int) int }, tc *c10Case) (mode string) {
+func c10RandShape(r interface{ Intn(int) int }, tc *c10Case, origin string, scripted bool) (mode string) {
 	tc.method = []string{"POST", "POST", "POST", "POST", "PUT", "PATCH", "DELETE", "GET", "GET", "HEAD", "OPTIONS", "POST"}[r.Intn(12)]
 	tc.allowGet = r.Intn(7) != 0
-	tc.url = "http://c10.test/" + c10Word(r, false)
+	// URL: absolute / relative to Client.BaseURL / without scheme (Client.SetScheme), with
+	// {placeholders} filled at request level, client level, both (the request wins) or not at
+	// all, and a query string of its own in front of the parameters
+	path := "/" + c10Word(r, false)
+	if r.Intn(3) == 0 {
+		names := []string{"id", "name", "zz"}
+		used := map[string]bool{}
+		for i := 0; i <= r.Intn(2); i++ {
+			n := names[r.Intn(3)]
+			path += []string{"/", "/v-", "/x/"}[r.Intn(3)] + "{" + n + "}"
+			if used[n] { // the same placeholder twice: filled alike
+				continue
+			}
+			used[n] = true
+			switch r.Intn(5) {
+			case 0:
+				tc.pathParams = append(tc.pathParams, [2]string{n, c10Word(r, true)})
+			case 1:
+				tc.cPathParams = append(tc.cPathParams, [2]string{n, c10Word(r, true)})
+			case 2:
+				tc.pathParams = append(tc.pathParams, [2]string{n, c10Word(r, true)})
+				tc.cPathParams = append(tc.cPathParams, [2]string{n, "client-" + c10Word(r, false)})
+			case 3:
+				tc.pathParams = append(tc.pathParams, [2]string{n, c10Word(r, false)})
+			}
+		}
+		if r.Intn(2) == 0 {
+			path += "/" + c10Word(r, false)
+		}
+	}
+	if r.Intn(4) == 0 {
+		path += "?" + []string{"uq", "rq", "cq"}[r.Intn(3)] + "=" + url.QueryEscape(c10Word(r, true))
+		if r.Intn(2) == 0 {
+			path += "&uq2=" + url.QueryEscape(c10Word(r, false))
+		}
+	}
+	switch k := r.Intn(10); {
+	case k == 0 || k == 1:
+		tc.urlKind = "r"
+		tc.baseURL = origin + []string{"", "/base", "/b/v1"}[r.Intn(3)]
+		tc.url = path
+		if r.Intn(3) == 0 {
+			tc.url = path[1:] // no leading slash: one is inserted
+		}
+	case k == 2 && scripted:
+		tc.urlKind, tc.scheme = "s", "http"
+		tc.url = strings.TrimPrefix(origin, "http://") + path
+	default:
+		tc.url = origin + path
+	}
 	if r.Intn(5) >= 2 {
 		for i := 0; i < 1+r.Intn(2); i++ {
 			tc.cCookies = append(tc.cCookies, [2]string{"c" + strconv.Itoa(i), c10Word(r, false)})
@@ -1798,6 +2100,10 @@ func c10RandShape(r interface{ Intn(int) int }, tc *c10Case) (mode string) {
 	}
 	if r.Intn(7) == 0 {
 		tc.headers = append(tc.headers, c10KV{"Content-Type", []string{[]string{"application/octet-stream", "text/x-req"}[r.Intn(2)]}})
+	}
+	if scripted && r.Intn(8) == 0 {
+		// SetHeaderOrder: the order keys travel in r.Headers under a magic key, up to the transport
+		tc.headers = append(tc.headers, c10KV{HeaderOderKey, [][]string{{"x-r1", "cookie", "x-c1"}, {"content-type"}, {"x-shared", "x-c1", "accept"}}[r.Intn(3)]})
 	}
 	if r.Intn(2) == 0 {
 		tc.cQuery = append(tc.cQuery, c10KV{"cq", []string{c10Word(r, true)}})
@@ -1840,6 +2146,16 @@ func c10RandShape(r interface{ Intn(int) int }, tc *c10Case) (mode string) {
 	case 4:
 		mode = "marshal"
 		tc.body = "m" + c10Word(r, false)
+		switch r.Intn(5) {
+		case 0: // an XML content type in force: the XML marshaller is used, on every attempt
+			mode = "marshal-xml"
+			tc.headers = c10SetKV(tc.headers, "Content-Type", "application/xml")
+		case 1:
+			if !c10HasKV(tc.headers, "Content-Type") {
+				mode = "marshal-xml"
+			}
+			tc.cHeaders = c10SetKV(tc.cHeaders, "Content-Type", "text/xml; charset=utf-8")
+		}
 	case 5:
 		mode = "reader"
 		tc.body = "r" + c10Text(c10Word(r, true))
@@ -1890,8 +2206,8 @@ func c10RandShape(r interface{ Intn(int) int }, tc *c10Case) (mode string) {
 		tc.multipart = true
 		tc.form = form("f")
 	}
-	// client-level form data: never together with a multipart request (C17 owns that corner)
-	if !tc.multipart && r.Intn(3) == 0 {
+	// client-level form data (merged once; since /repo c422765 also into multipart requests)
+	if r.Intn(3) == 0 {
 		tc.cForm = form([]string{"cf", "f"}[r.Intn(2)])
 	}
 	tc.trace = r.Intn(3) == 0
@@ -1940,9 +2256,9 @@ func TestVerif_C10_wire(t *testing.T) {
 	n := verifh.N(3000, 150000)
 	for i := 0; i < n; i++ {
 		tc := &c10Case{}
-		mode := c10RandShape(r, tc)
+		mode := c10RandShape(r, tc, "http://c10.test", true)
 		cnt := "n=" + []string{"-1", "0", "1", "2", "5", "2", "2", "5"}[r.Intn(8)]
-		iv := []string{"i=f1", "i=x0", "i=x3", "i=f2"}[r.Intn(4)]
+		iv := []string{"i=f1", "i=x0", "i=x3", "i=f2", "i=f100", "i=f101"}[r.Intn(6)]
 		if r.Intn(2) == 0 {
 			tc.clientOps = []string{cnt, iv}
 		} else {
@@ -1962,6 +2278,44 @@ func TestVerif_C10_wire(t *testing.T) {
 			}
 		}
 		tc.script = append(tc.script, []string{"s200", "s200", "s404", "t"}[r.Intn(4)], "c")
+		if r.Intn(5) == 0 {
+			// the origin sets / replaces / expires cookies: the jar's cookies go out with the NEXT attempt
+			for j, o := range tc.script {
+				if (o[0] == 's' || o[0] == 'b') && r.Intn(3) != 0 {
+					tc.script[j] = o + "^" + []string{"sid:a" + strconv.Itoa(j), "sid:b" + strconv.Itoa(j) + "+t:1", "t:", "t:2+u:x", "sid:"}[r.Intn(5)]
+					count("jar:set-cookie")
+				}
+			}
+		}
+		if r.Intn(8) == 0 && tc.body[0] != 'r' && len(tc.files) == 0 {
+			// the same Request once more (state carried over: headers, cookies, form data).  Not
+			// with file uploads: rewinding / reopening them is keyed on RetryAttempt > 0, so a re-send
+			// after a call without retries uploads drained or closed files — no retry is involved,
+			// outside C10 (see notes, observations)
+			tc.resend = [][]string{{}}
+			if r.Intn(2) == 0 {
+				tc.resend = [][]string{{"n=" + []string{"0", "1", "3"}[r.Intn(3)]}}
+			}
+			tc.script = append(tc.script, []string{"t", "s503"}[r.Intn(2)], "s200", "c", "c")
+			count("resend")
+		}
+		if tc.urlKind != "" {
+			count("url:" + tc.urlKind)
+		}
+		if strings.Contains(tc.url, "{") {
+			count("url:placeholder")
+		}
+		if strings.Contains(tc.url, "?") {
+			count("url:raw-query")
+		}
+		if tc.multipart && len(tc.cForm) > 0 {
+			count("multipart+clientform")
+		}
+		for _, h := range tc.headers {
+			if h.k == HeaderOderKey {
+				count("header-order")
+			}
+		}
 		if r.Intn(6) == 0 {
 			acts := []string{"N", "H" + verifh.Hex("X-Retry") + ":" + verifh.Hex("yes"), "K" + verifh.Hex("hk") + ":" + verifh.Hex("1"), "Q" + verifh.Hex("rq") + ":" + verifh.Hex("h")}
 			if tc.body[0] == 'b' && len(tc.form) == 0 && len(tc.cForm) == 0 {
@@ -1975,7 +2329,8 @@ func TestVerif_C10_wire(t *testing.T) {
 		}
 		add(tc, mode)
 	}
-	for _, need := range []string{"retried:bytes", "retried:form", "retried:ordered", "retried:multipart-files", "retried:multipart-fields", "retried:getbody", "retried:marshal", "retried:none", "refused", "mode:reader"} {
+	for _, need := range []string{"retried:bytes", "retried:form", "retried:ordered", "retried:multipart-files", "retried:multipart-fields", "retried:getbody", "retried:marshal", "retried:marshal-xml", "retried:none", "refused", "mode:reader",
+		"url:r", "url:s", "url:placeholder", "url:raw-query", "multipart+clientform", "header-order", "jar:set-cookie", "resend"} {
 		if hist[need] == 0 {
 			t.Errorf("generator never reached bucket %s", need)
 		}
